@@ -90,8 +90,13 @@ async fn canaries() -> Canaries {
         let l = std::net::TcpListener::bind("127.0.0.1:0").unwrap();
         l.local_addr().unwrap()
     };
-    // a listener whose accept queue is full: further connection attempts get no answer
-    let (timeout, keep) = unsafe {
+    let (timeout, keep) = blackhole_listener();
+    Canaries { refused, timeout, _keep: keep, tcp_a: addrs[0], tcp_b: addrs[1], udp, tcp_count, udp_count }
+}
+
+/// a listener whose accept queue is full: further connection attempts get no answer
+pub fn blackhole_listener() -> (std::net::SocketAddr, Vec<std::net::TcpStream>) {
+    unsafe {
         use std::os::unix::io::FromRawFd;
         let fd = libc::socket(libc::AF_INET, libc::SOCK_STREAM, 0);
         let mut sa: libc::sockaddr_in = std::mem::zeroed();
@@ -109,8 +114,7 @@ async fn canaries() -> Canaries {
         }
         std::mem::forget(l);
         (a, keep)
-    };
-    Canaries { refused, timeout, _keep: keep, tcp_a: addrs[0], tcp_b: addrs[1], udp, tcp_count, udp_count }
+    }
 }
 
 fn subst(b: &[u8], c: &Canaries) -> Vec<u8> {
@@ -154,6 +158,35 @@ fn classify(status: u16, headers: &[(String, Vec<u8>)]) -> (u128, u128, u128, u1
     (status as u128, challenge, warn, names_host)
 }
 
+/// where the session enters the endpoint: the door after the TLS handshake, or the real listener
+#[derive(Clone)]
+enum Front {
+    Door(Ctx),
+    Real(std::net::SocketAddr),
+}
+
+trait Io: tokio::io::AsyncRead + tokio::io::AsyncWrite + Unpin + Send {}
+impl<T: tokio::io::AsyncRead + tokio::io::AsyncWrite + Unpin + Send> Io for T {}
+
+async fn open(front: &Front, http2: bool, sni: Option<String>) -> Option<(Box<dyn Io>, Option<tokio::task::JoinHandle<()>>)> {
+    let name = sni.as_ref().map_or("localhost".to_string(), |c| format!("{}.localhost", c));
+    match front {
+        Front::Door(ctx) => {
+            let (client, server) = tokio::io::duplex(1 << 16);
+            let ctx2 = ctx.clone();
+            let task = tokio::spawn(async move {
+                let _ = session::run(&ctx2, session::Channel::Tunnel, http2, server, "198.51.100.7:40000".parse().unwrap(), name, sni).await;
+            });
+            Some((Box::new(client), Some(task)))
+        }
+        Front::Real(addr) => {
+            let alpn: &[&[u8]] = if http2 { &[b"h2"] } else { &[b"http/1.1"] };
+            let tls = crate::front::tls_connect(*addr, &name, alpn).await?;
+            Some((Box::new(tls), None))
+        }
+    }
+}
+
 struct Req {
     kind: u128,
     target: Vec<u8>,
@@ -161,13 +194,10 @@ struct Req {
     payload: Vec<u8>,
 }
 
-async fn h1_one(ctx: &Ctx, sni: Option<String>, r: &Req, c: &Canaries) -> (u128, u128, u128, u128, u128) {
-    let (mut client, server) = tokio::io::duplex(1 << 16);
-    let ctx2 = ctx.clone();
-    let task = tokio::spawn(async move {
-        let name = sni.as_ref().map_or("localhost".to_string(), |c| format!("{}.localhost", c));
-        let _ = session::run(&ctx2, session::Channel::Tunnel, false, server, "198.51.100.7:40000".parse().unwrap(), name, sni).await;
-    });
+async fn h1_one(front: &Front, sni: Option<String>, r: &Req, c: &Canaries) -> (u128, u128, u128, u128, u128) {
+    let Some((mut client, task)) = open(front, false, sni).await else {
+        return (0, 0, 0, 0, 0);
+    };
     let mut head = vec![];
     head.extend_from_slice(method_of(r.kind).as_bytes());
     head.push(b' ');
@@ -230,7 +260,9 @@ async fn h1_one(ctx: &Ctx, sni: Option<String>, r: &Req, c: &Canaries) -> (u128,
         responses += 1;
     }
     drop(client);
-    let _ = tokio::time::timeout(Duration::from_millis(300), task).await;
+    if let Some(task) = task {
+        let _ = tokio::time::timeout(Duration::from_millis(300), task).await;
+    }
     match parsed {
         Some((s, hs)) => {
             let (a, b, w, nh) = classify(s, &hs);
@@ -249,22 +281,37 @@ pub fn session(toks: Vec<Tok>) -> Vec<Tok> {
             1 => Some(Arc::new(RegistryBasedAuthenticator::new(&clients()))),
             _ => Some(Arc::new(Custom(RegistryBasedAuthenticator::new(&clients())))),
         };
-        let ctx = {
-            use trusttunnel::settings::{Http1Settings, Http2Settings, ListenProtocolSettings, Settings};
-            let settings = Settings::builder()
-                .listen_address("127.0.0.1:1")
+        // cfg[4]: 0 / absent = the door after the TLS handshake; 1 = the real listener over TLS; 3 = the real listener over QUIC + HTTP/3
+        let front_kind = cfg.get(4).copied().unwrap_or(0);
+        let private_allowed = cfg[3] == 1;
+        let make_settings = move |addr: std::net::SocketAddr| {
+            use trusttunnel::settings::{Http1Settings, Http2Settings, ListenProtocolSettings, QuicSettings, Settings};
+            Settings::builder()
+                .listen_address(addr)
                 .unwrap()
                 .listen_protocols(ListenProtocolSettings {
                     http1: Some(Http1Settings::builder().build()),
                     http2: Some(Http2Settings::builder().build()),
-                    quic: None,
+                    quic: if front_kind == 3 { Some(QuicSettings::builder().build()) } else { None },
                 })
-                .allow_private_network_connections(cfg[3] == 1)
+                .allow_private_network_connections(private_allowed)
                 .ipv6_available(true)
                 .connection_establishment_timeout(Duration::from_millis(400))
                 .build()
-                .unwrap();
-            trusttunnel::verif::ctx::make(settings, crate::ctxutil::basic_hosts(), auth).unwrap()
+                .unwrap()
+        };
+        let mut _endpoint = None;
+        let front = if front_kind == 0 {
+            Front::Door(trusttunnel::verif::ctx::make(make_settings("127.0.0.1:1".parse().unwrap()), crate::ctxutil::basic_hosts(), auth).unwrap())
+        } else {
+            match crate::front::start(make_settings, crate::ctxutil::basic_hosts, auth).await {
+                Some(e) => {
+                    let a = e.addr;
+                    _endpoint = Some(e);
+                    Front::Real(a)
+                }
+                None => return vec![vec![996]],
+            }
         };
         let sni = match cfg[2] {
             0 => None,
@@ -288,29 +335,32 @@ pub fn session(toks: Vec<Tok>) -> Vec<Tok> {
             i += 4;
         }
         let mut out = vec![];
-        if cfg[1] == 0 {
+        if front_kind == 3 {
+            let Front::Real(addr) = front else { unreachable!() };
+            out = h3_session(addr, sni, &reqs, &c).await;
+        } else if cfg[1] == 0 {
             for r in &reqs {
                 let t0 = c.tcp_count.load(Ordering::SeqCst);
                 let u0 = c.udp_count.load(Ordering::SeqCst);
-                let (s, ch, w, nh, n) = h1_one(&ctx, sni.clone(), r, &c).await;
+                let (s, ch, w, nh, n) = h1_one(&front, sni.clone(), r, &c).await;
                 tokio::time::sleep(Duration::from_millis(40)).await;
                 out.push(vec![s, ch, w, (c.tcp_count.load(Ordering::SeqCst) - t0) as u128, (c.udp_count.load(Ordering::SeqCst) - u0) as u128, nh, n]);
             }
         } else {
-            out = h2_session(&ctx, sni, &reqs, &c).await;
+            out = h2_session(&front, sni, &reqs, &c).await;
         }
         out
     })
 }
 
-async fn h2_session(ctx: &Ctx, sni: Option<String>, reqs: &[Req], c: &Canaries) -> Vec<Tok> {
-    let (client, server) = tokio::io::duplex(1 << 16);
-    let ctx2 = ctx.clone();
-    let task = tokio::spawn(async move {
-        let name = sni.as_ref().map_or("localhost".to_string(), |c| format!("{}.localhost", c));
-        let _ = session::run(&ctx2, session::Channel::Tunnel, true, server, "198.51.100.7:40000".parse().unwrap(), name, sni).await;
-    });
+async fn h2_session(front: &Front, sni: Option<String>, reqs: &[Req], c: &Canaries) -> Vec<Tok> {
     let mut out = vec![];
+    let Some((client, task)) = open(front, true, sni).await else {
+        for _ in reqs {
+            out.push(vec![0, 0, 0, 0, 0, 0, 0]);
+        }
+        return out;
+    };
     let hs = tokio::time::timeout(Duration::from_secs(3), h2::client::handshake(client)).await;
     let (mut send, conn) = match hs {
         Ok(Ok(x)) => x,
@@ -385,6 +435,86 @@ async fn h2_session(ctx: &Ctx, sni: Option<String>, reqs: &[Req], c: &Canaries) 
     }
     drop(send);
     driver.abort();
-    let _ = tokio::time::timeout(Duration::from_millis(300), task).await;
+    if let Some(task) = task {
+        let _ = tokio::time::timeout(Duration::from_millis(300), task).await;
+    }
+    out
+}
+
+/// the same requests over one QUIC connection to the real listener, one HTTP/3 request stream each
+async fn h3_session(addr: std::net::SocketAddr, sni: Option<String>, reqs: &[Req], c: &Canaries) -> Vec<Tok> {
+    let name = sni.as_ref().map_or("localhost".to_string(), |c| format!("{}.localhost", c));
+    let mut out = vec![];
+    let Some(mut h3) = crate::front::H3Client::connect(addr, &name).await else {
+        for _ in reqs {
+            out.push(vec![0, 0, 0, 0, 0, 0, 0]);
+        }
+        return out;
+    };
+    for r in reqs {
+        let t0 = c.tcp_count.load(Ordering::SeqCst);
+        let u0 = c.udp_count.load(Ordering::SeqCst);
+        let target = String::from_utf8_lossy(&r.target).to_string();
+        let mut hs: Vec<(Vec<u8>, Vec<u8>)> = vec![(b":method".to_vec(), method_of(r.kind).as_bytes().to_vec())];
+        if r.kind == 1 {
+            hs.push((b":authority".to_vec(), r.target.clone()));
+        } else {
+            let Ok(uri) = target.parse::<http::Uri>() else {
+                out.push(vec![996]);
+                continue;
+            };
+            let (Some(scheme), Some(authority)) = (uri.scheme_str(), uri.authority()) else {
+                out.push(vec![996]);
+                continue;
+            };
+            hs.push((b":scheme".to_vec(), scheme.as_bytes().to_vec()));
+            hs.push((b":authority".to_vec(), authority.as_str().as_bytes().to_vec()));
+            hs.push((b":path".to_vec(), uri.path_and_query().map_or("/", |p| p.as_str()).as_bytes().to_vec()));
+        }
+        if let Some(h) = &r.header {
+            if http::HeaderValue::from_bytes(h).is_err() {
+                out.push(vec![996]);
+                continue;
+            }
+            hs.push((b"proxy-authorization".to_vec(), h.clone()));
+        }
+        hs.push((b"user-agent".to_vec(), b"verif".to_vec()));
+        let has_body = r.kind == 7 || r.kind == 8;
+        let res = async {
+            let id = h3.request(&hs, false)?;
+            if has_body {
+                h3.send_body(id, &r.payload, true).await;
+            }
+            h3.drive(Duration::from_secs(5), |x| x.streams[&id].headers.is_some() || x.streams[&id].reset).await;
+            let st = h3.streams[&id].clone();
+            st.headers.as_ref()?;
+            let status = st.status();
+            if status == 200 && r.kind == 1 && !r.payload.is_empty() {
+                let mut p = r.payload.clone();
+                if r.target == b"_udp2" {
+                    patch_datagram(&mut p, c);
+                }
+                h3.send_body(id, &p, false).await;
+            }
+            h3.drive(Duration::from_millis(120), |_| false).await;
+            if !has_body {
+                h3.send_body(id, &[], true).await;
+            }
+            let st = h3.streams[&id].clone();
+            let list: Vec<(String, Vec<u8>)> = st.headers.unwrap_or_default().into_iter().map(|(n, v)| (String::from_utf8_lossy(&n).to_string(), v)).collect();
+            Some((status, list, 1 + st.extra_heads as u128))
+        }
+        .await;
+        h3.drive(Duration::from_millis(40), |_| false).await;
+        let (s, ch, w, nh, n) = match res {
+            Some((s, hs, n)) => {
+                let (a, b2, w, nh) = classify(s, &hs);
+                (a, b2, w, nh, n)
+            }
+            None => (0, 0, 0, 0, 0),
+        };
+        out.push(vec![s, ch, w, (c.tcp_count.load(Ordering::SeqCst) - t0) as u128, (c.udp_count.load(Ordering::SeqCst) - u0) as u128, nh, n]);
+    }
+    h3.close();
     out
 }
